@@ -25,6 +25,7 @@ def run(ctx):
 
     # ---- C11.1 nothing on the success path waits for an answer
     n = 0
+    memo = {}
     for f in (cc_next, cc_read):
         inst = facts.mono_instance(f.id)
         ctx.touch(f)
@@ -52,15 +53,20 @@ def run(ctx):
                 continue
             n += 1
             ctx.call_sites += 1
-            eff = facts.call_effects(inst, bb) & FORBIDDEN
+            # effects of the callee on *its* successful paths (a callee that fails ends the success path of the caller)
+            eff = set()
+            for _, kind, to, e in facts.inst_callees(inst, bb):
+                if to is not None:
+                    eff |= shared.success_effects(facts, to, memo)
+            eff &= FORBIDDEN
             ctx.ob("C11.1", "%s|success-path|%s" % (f.id, short(call_name(t))), "parsing and delivering a request never waits for an earlier request to be answered", not eff, f.loc(bb),
                    None if not eff else "%s" % sorted(eff))
     ctx.floor("C11.1 calls on the parser's success path", n, 40)
     # new_request (connection instance) as a whole
     insts = [i for i in facts.instances_of(nr.id) if not i["generic"] and "SequentialReader<" in i["name"]]
     ctx.require(len(insts) == 1, "C11.1: connection instance of new_request")
-    eff = facts.effects()[insts[0]["id"]] & FORBIDDEN
-    ctx.ob("C11.1", "%s|no-writer-wait" % nr.id, "building a Request never touches the response writer it is given", not eff, "%s:%d" % (nr.file, nr.line), None if not eff else str(sorted(eff)))
+    eff = shared.success_effects(facts, insts[0]["id"], memo) & FORBIDDEN
+    ctx.ob("C11.1", "%s|no-writer-wait" % nr.id, "successfully building a Request never touches the response writer it is given", not eff, "%s:%d" % (nr.file, nr.line), None if not eff else str(sorted(eff)))
 
     # ---- C11.2 the socket reader is released at parse time for absent / empty / pre-read bodies
     import rules_C03
@@ -117,43 +123,37 @@ def run(ctx):
             try:
                 v = predeval.ev(f, o, env)
             except predeval.Unknown as e:
-                if f.in_loop(bb):
-                    asg["loop%d" % bb] = True
-                    tgt = bs[2] if rc in f.reach([bs[2]], blocked={bb}, unwind=False) else bs[1]
-                    return ("loop%d" % bb, {True: tgt})
-                raise CheckerError("C11.2: cannot evaluate guard at %s: %s" % (f.loc(bb), e))
+                return None
             asg["g%d" % bb] = bool(v)
             return ("g%d" % bb, {True: bs[1], False: bs[2]})
-        ev = {"dropped": False, "moved": False, "after_cons": False}
-        def on_block(bb):
-            t = f.term(bb)
-            if t["t"] == "drop" and not t["pl"]["p"] and t["pl"]["l"] == RP:
-                ev["dropped"] = True
-            for s in f.stmts(bb):
-                if s["s"] == "assign":
-                    for p, kind in rvalue_places(s["rhs"]):
-                        if kind == "move" and not p["p"] and p["l"] == RP:
-                            ev["moved"] = True
-            if t["t"] == "call":
-                for a in t["args"]:
-                    if a["k"] == "move" and op_local(a) == RP:
-                        ev["moved"] = True
-        try:
-            end, visited = shared.walk_decision(f, start, atom_of, asg, set(f.returns()), on_block)
-        except CheckerError:
-            # tail of the function: drop-elaboration diamonds on Option locals; walk only to the Request construction and
-            # decide by dataflow whether the reader parameter is still owned there
-            end, visited = shared.walk_decision(f, start, atom_of, asg, {rc}, on_block)
-            IN = maybe_init(f, unwind=False)
-            if not ev["moved"]:
-                # still owned at construction => elaborated drop at the end of the function
-                ev["dropped"] = True
+        paths = shared.walk_paths(f, start, atom_of, asg, set(f.returns()))
         rows += 1
-        ctx.paths += 1
+        ctx.paths += len(paths)
         release = (not up) and (not te) and (cl is None or cl == 0 or (cl <= 1024 and not ex))
-        got = ev["dropped"] and not ev["moved"]
-        if got != release:
-            bad.append(((up, te, cl, ex), "released" if got else "kept", "released" if release else "kept"))
+        n_ok_paths = 0
+        for end, visited in paths:
+            if end is None or rc not in visited:
+                continue      # loop cuts / error returns
+            n_ok_paths += 1
+            dropped = moved = False
+            for bb in visited:
+                t = f.term(bb)
+                if t["t"] == "drop" and not t["pl"]["p"] and t["pl"]["l"] == RP:
+                    dropped = True
+                for s_ in f.stmts(bb):
+                    if s_["s"] == "assign":
+                        for p_, kind in rvalue_places(s_["rhs"]):
+                            if kind == "move" and not p_["p"] and p_["l"] == RP:
+                                moved = True
+                if t["t"] == "call":
+                    for a in t["args"]:
+                        if a["k"] == "move" and op_local(a) == RP:
+                            moved = True
+            got = dropped and not moved
+            if got != release:
+                bad.append(((up, te, cl, ex), "released" if got else "kept", "released" if release else "kept"))
+        if n_ok_paths == 0:
+            bad.append(((up, te, cl, ex), "no successful path", ""))
     ctx.counts["C11.2 rows"] = rows
     ctx.ob("C11.2", "%s|reader-released-at-parse-time" % f.id,
            "the request gives its share of the socket reader back during parsing exactly when its body is absent, empty or pre-read (0 < Content-Length <= 1024 without Expect); otherwise it keeps it",
